@@ -83,13 +83,16 @@ class Line:
 
 
 class Emitter:
-    def __init__(self, ns, cont=0):
+    def __init__(self, ns, cont=0, inline=None):
         self.ns = ns
         self.lines = []
         self.cont = cont
+        self.base = 0              # indentation offset while an inline (nested) definition is written
+        self.inline = inline or {}  # (owner name, member name) -> definition written below that member
+        self.owner = None
 
     def line(self, indent, text):
-        self.lines.append(Line(indent, text))
+        self.lines.append(Line(indent + self.base, text))
 
     def doc(self, indent, text):
         """Multi-line strings: continuation lines start at the opening quote's column (LR
@@ -101,10 +104,10 @@ class Emitter:
         if len(parts) == 1:
             self.line(indent, '"%s"' % parts[0])
             return
-        self.lines.append(Line(indent, '"' + parts[0], trail_ok=False))
+        self.lines.append(Line(indent + self.base, '"' + parts[0], trail_ok=False))
         for i, p in enumerate(parts[1:]):
             last = i == len(parts) - 2
-            txt = ((' ' * (4 * indent)) + p) if p else ''
+            txt = ((' ' * (4 * (indent + self.base))) + p) if p else ''
             self.lines.append(Line(0, txt + ('"' if last else ''), noise_ok=False, raw=True))
 
     def annots(self, indent, annots):
@@ -119,10 +122,21 @@ class Emitter:
             return ' = %s' % d[1]
         return ' = %s' % fmt_literal(d[1])
 
+    def nested(self, indent, member):
+        """LR "Nested Definitions": the member's type defined inline, below its annotations and doc."""
+        d = self.inline.get((self.owner, member['name']))
+        if d is None:
+            return
+        save_base, save_owner = self.base, self.owner
+        self.base = save_base + indent
+        self.definition(d, 'base', nested=True)
+        self.base, self.owner = save_base, save_owner
+
     def field(self, indent, f):
         self.line(indent, '%s %s%s' % (f['name'], fmt_type(f['type'], self.ns), self.default(f)))
         self.annots(indent + 1, f.get('annots') or [])
         self.doc(indent + 1, f.get('doc'))
+        self.nested(indent + 1, f)
 
     def tag(self, indent, t):
         if t['type'] is None:
@@ -131,6 +145,7 @@ class Emitter:
             self.line(indent, '%s %s' % (t['name'], fmt_type(t['type'], self.ns)))
         self.annots(indent + 1, t.get('annots') or [])
         self.doc(indent + 1, t.get('doc'))
+        self.nested(indent + 1, t)
 
     def example(self, indent, ex, names):
         self.line(indent, 'example %s' % ex['label'])
@@ -151,10 +166,12 @@ class Emitter:
             else:
                 self.line(indent + 1, '%s = %s' % (name, fmt_exval(v)))
 
-    def definition(self, d, part='base'):
+    def definition(self, d, part='base', nested=False):
         """part: 'base' (definition without patched members) or 'patch'."""
         k = d['k']
         ns = self.ns
+        if k in ('struct', 'union'):
+            self.owner = d['name']
         if k == 'alias':
             self.line(0, 'alias %s = %s' % (d['name'], fmt_type(d['type'], ns)))
             self.annots(1, d.get('annots') or [])
@@ -172,7 +189,7 @@ class Emitter:
                 ext = ''
                 if d.get('parent'):
                     ext = ' extends %s' % fmt_type(('ref',) + tuple(d['parent']), ns)
-                self.line(0, '%s %s%s' % (kw, d['name'], ext))
+                self.line(0, (kw + ext) if nested else '%s %s%s' % (kw, d['name'], ext))
                 self.doc(1, d.get('doc'))
                 if k == 'struct' and d.get('subtypes'):
                     self.line(1, 'union_closed' if d['subtypes']['closed'] else 'union')
@@ -269,8 +286,52 @@ def layouts(draw, api, pin_docs=False):
             seen.add(f['ns'])
     noise = draw(st.lists(st.integers(0, 11), min_size=1, max_size=12))
     cont = draw(st.integers(0, 15))
+    nested = {}
+    if draw(st.integers(0, 2)) == 0:
+        nested = draw(nested_hosts(api))
     return {'files': list(files), 'noise': noise, 'cont': cont,
-            'schema_pos': draw(st.integers(0, len(files)))}
+            'schema_pos': draw(st.integers(0, len(files))), 'nested': nested}
+
+
+def nested_candidates(api):
+    """(namespace, type name) -> [(owner name, member name)]: user types that can be written inline below a
+    member typed by them (LR "Nested Definitions"; the grammar's anonymous definition is a full definition
+    without the name): unpatched, and the member belongs to another unpatched definition of the same namespace."""
+    out = {}
+    for n in api['namespaces']:
+        defs = {d['name']: d for d in n['defs'] if d['k'] in ('struct', 'union')}
+        for d in defs.values():
+            if d.get('patch'):
+                continue
+            for m in (d['fields'] if d['k'] == 'struct' else d['tags']):
+                t = m['type']
+                if t is not None and t[0] == 'nullable':
+                    t = t[1]
+                if t is None or t[0] != 'ref' or t[1] != n['name'] or t[2] == d['name']:
+                    continue
+                td = defs.get(t[2])
+                if td is None or td.get('patch'):
+                    continue        # (the grammar allows `extends`, a subtypes block and a default on the member)
+                out.setdefault((n['name'], t[2]), []).append((d['name'], m['name']))
+    return out
+
+
+@st.composite
+def nested_hosts(draw, api):
+    cands = nested_candidates(api)
+    chosen = {}
+    hosts, inlined = set(), set()
+    for key in sorted(cands):
+        if draw(st.integers(0, 1)):
+            continue
+        owner, member = draw(st.sampled_from(cands[key]))
+        # one level only: an inlined type hosts nothing, a host is not inlined itself
+        if (key[0], owner) in inlined or key in hosts:
+            continue
+        chosen['%s.%s' % key] = [owner, member]
+        inlined.add(key)
+        hosts.add((key[0], owner))
+    return chosen
 
 
 NOISE_COMMENTS = ['# a comment', '    # indented comment', '  # odd indent: struct x', '#',
@@ -313,9 +374,18 @@ def render(api, layout=None):
     counter = {}
     files = list(layout['files'])
     out_files = []
+    nested = layout.get('nested') or {}
     for f in files:
         n = nsmap[f['ns']]
-        em = Emitter(n['name'], layout['cont'])
+        by_name = {d.get('name'): d for d in n['defs'] if d['k'] in ('struct', 'union')}
+        inline = {}
+        skip = set()
+        for key, (owner, member) in nested.items():
+            nsname, tname = key.split('.', 1)
+            if nsname == n['name'] and tname in by_name and owner in by_name:
+                inline[(owner, member)] = by_name[tname]
+                skip.add(tname)
+        em = Emitter(n['name'], layout['cont'], inline)
         em.line(0, 'namespace %s' % n['name'])
         doc = n.get(f['doc']) if f.get('doc') else None
         if doc is not None:
@@ -325,6 +395,8 @@ def render(api, layout=None):
             if kind == 'import':
                 em.line(0, 'import %s' % i)
             elif kind == 'def':
+                if n['defs'][i].get('name') in skip and n['defs'][i]['k'] in ('struct', 'union'):
+                    continue        # written inline below the member that hosts it
                 em.definition(n['defs'][i], 'base')
             else:
                 em.definition(n['defs'][i], 'patch')
